@@ -2,6 +2,7 @@
 import EtkVerif.Driver.Util
 import EtkVerif.Asm.Parse
 import EtkVerif.Asm.Assemble
+import EtkVerif.Asm.Spec
 namespace EtkVerif.Driver
 open EtkVerif Asm
 
@@ -50,8 +51,9 @@ def decodeUtf8 (bytes : List Nat) : Option (List Nat) :=
 
 def asmFuel : Nat := 100000
 
-/-- `asm <hex source>`: without a file system every directive fails to resolve. -/
-def cmdAsm (args : List String) : String :=
+/-- `asm <hex source>`: without a file system every directive fails to resolve.
+`useSpec`: run the reference semantics (`Spec.assembleScope`) instead of the model. -/
+def cmdAsmWith (useSpec : Bool) (args : List String) : String :=
   match args with
   | h :: _ =>
     match unhex h with
@@ -70,9 +72,14 @@ def cmdAsm (args : List String) : String :=
           match raws nodes with
           | none => "err Io canonicalizing_include/import"
           | some rs =>
-            match assemble (fun k => k) asmFuel {} (RawOps.ofList rs) with
+            let r := if useSpec then Spec.assembleScope (fun k => k) asmFuel 0 (RawOps.ofList rs)
+                     else assemble (fun k => k) asmFuel {} (RawOps.ofList rs)
+            match r with
             | .ok (bytes, _) => s!"ok {hx bytes}"
             | .error e => showAsmErr e
   | _ => "bad-op"
+
+def cmdAsm (args : List String) : String := cmdAsmWith false args
+def cmdAsmSpec (args : List String) : String := cmdAsmWith true args
 
 end EtkVerif.Driver
